@@ -1,11 +1,11 @@
 SPECIFICATION Spec
 CONSTANTS
-  Scheds <- SchedsSmall
-  Blocking = {2}
-  MaxNow = 6
+  Scheds <- SchedsBetween
+  Blocking = {}
+  MaxNow = 4
   MaxStep = 3
   MaxOps = 4
   Chain = "none"
-  Variant = "stalenow"
+  Variant = "unsortedadd"
 INVARIANTS Accepted
 CHECK_DEADLOCK FALSE
